@@ -50,3 +50,24 @@ class Validate:
 
     def ensures(self, value, result):
         return result is None
+
+
+@contract("core.gatedef:IdleGateDefinition.__init__", props=["C18"])
+class IdleInit:
+    """the derived idle gate has its parent's parameters and the name I_<parent>; prepare/measure have none"""
+
+    def requires(self, gate, name):
+        return type_is(self, IdleGateDefinition) and isinstance(gate, AbstractGate) and is_str(gate._name) and (name is None or is_str(name))
+
+    modifies = ("self._parent_def", "self._parameters", "self._name")
+
+    def raises_JaqalError(self, gate, name):
+        return gate._name == "prepare_all" or gate._name == "measure_all"
+
+    raises_only = ("JaqalError",)
+
+    def ensures_signature(self, gate, name, result):
+        return same(self._parameters, old(gate._parameters)) and same(self._parent_def, gate)
+
+    def ensures_name(self, gate, name, result):
+        return implies(name is None, self._name == "I_" + old(gate._name))
